@@ -22,7 +22,8 @@ TECHNIQUE = ('property-based testing (Hypothesis): differential against a '
 RULE = ('Real directory trees (<= 7 directories, <= 14 files, depth <= 4; '
         'names with dots, spaces, glob metacharacters, hidden, backup and '
         'lock names, platform names; optional symlinked directory) x lists of '
-        '1-3 patterns (existing literal prefix + components with * ? [..] '
+        '1-3 patterns (incl. lists over sibling directories one of whose names '
+        'is a string prefix of the other; existing literal prefix + components with * ? [..] '
         '[!..] and one or more ** runs, optional trailing /) x type x extra x '
         'exclude x filter (none / filter_by_platform / generated predicate) x '
         'dist x cache.  Non-trivial: a pattern has ** or there are >= 2 '
